@@ -38,6 +38,13 @@ def Exc.name : Exc → String
   | .identifierNotLocked => "IdentifierNotLocked"
   | .blocked => "BLOCKED" | .modelBug => "MODELBUG"
 
+instance {ε α : Type} [DecidableEq ε] [DecidableEq α] : DecidableEq (Except ε α) := fun a b =>
+  match a, b with
+  | .ok x, .ok y => if h : x = y then isTrue (by rw [h]) else isFalse (by intro e; cases e; exact h rfl)
+  | .error x, .error y => if h : x = y then isTrue (by rw [h]) else isFalse (by intro e; cases e; exact h rfl)
+  | .ok _, .error _ => isFalse (by intro e; cases e)
+  | .error _, .ok _ => isFalse (by intro e; cases e)
+
 /-- A Python string-typed argument as the API receives it. -/
 inductive SArg
   | none                -- Python `None`
